@@ -61,11 +61,34 @@ def exhaustive(tier):
                 for end in (-1, length):
                     yield {"prune": True, "ops": [acts[1], ("batch", list(seq), end), acts[5]]}
 
+    yield ("deep chain of nested prefix keys on a pruning trie", iter([{"deep": 1}]))
     yield (f"all direct histories of length<={n} and all single batches of length<={n-1} (committed/aborted) over the 6-key universe", gen())
+
+
+def _run_deep(case, info):
+    from ..deepchain import build_chain
+    from ..hexrun import check_prune
+    from ..ref.mpt import RefTrie
+    from ..util import expect_eq, impl
+
+    t, model, keys = build_chain(fan=True, prune=True)
+    check_prune(t, t.db, model, info, RefTrie(model))
+    for k in reversed(keys[len(keys) // 3:]):
+        impl("delete-never-raises", t.delete, k)
+        del model[k]
+    check_prune(t, t.db, model, info, RefTrie(model))
+    for k in list(model):
+        impl("delete-never-raises", t.delete, k)
+    expect_eq("no-garbage-left", dict(t.db), {}, "database after deleting every key of the deep chain")
+    info.label("deep-chain")
+    info.nontrivial = len(keys) >= 100
+    return info
 
 
 def run_case(case):
     info = Info()
+    if "deep" in case:
+        return _run_deep(case, info)
     facts = run_history(case, {"prune", "map"}, info)
     info.label("batch-mixed", facts["batches"] > 0)
     info.nontrivial = facts["shared"] > 0 or facts["collapse"] > 0
